@@ -125,4 +125,19 @@ unsigned wv_steps;
   WV_INVB1(g, e, k, 5) && WV_INVB1(g, e, k, 6) && WV_INVB1(g, e, k, 7) && WV_INVB1(g, e, k, 8) && WV_INVB1(g, e, k, 9) && WV_INVB1(g, e, k, 10) && \
   WV_INVB1(g, e, k, 11) && WV_INVB1(g, e, k, 12) && WV_INVB1(g, e, k, 13) && WV_INVB1(g, e, k, 14) && WV_INVB1(g, e, k, 15) && WV_INVB_SELF(g, e, k) && \
   (g)->turn == WV_ADDM((g)->size, e, (k) >= (g)->size ? 0 : (k)))
+/* --- prepare_AES: the observed streams are constants of the obligation (T is fixed there): stream 1 (if there is one) and the last */
+#ifdef WV_T_FIX
+#define WV_S1 ((WV_T_FIX) > 1 ? 1 : 0)
+#define WV_SLAST ((WV_T_FIX) - 1)
+#else
+#define WV_S1 0
+#define WV_SLAST 0
+#endif
+#define WV_STREAM(m, i) ((AesEncrypt *)(m)[i])
+#define WV_STREAM_IV_IS(m, i, p) WV_KEY16_EQ((m)[i]->initiv, p)
+#define WV_KEY16_EQ(a, b) ((a)[0] == (b)[0] && (a)[1] == (b)[1] && (a)[2] == (b)[2] && (a)[3] == (b)[3] && (a)[4] == (b)[4] && \
+  (a)[5] == (b)[5] && (a)[6] == (b)[6] && (a)[7] == (b)[7] && (a)[8] == (b)[8] && (a)[9] == (b)[9] && (a)[10] == (b)[10] && \
+  (a)[11] == (b)[11] && (a)[12] == (b)[12] && (a)[13] == (b)[13] && (a)[14] == (b)[14] && (a)[15] == (b)[15])
+#define WV_TAG_FOR(isenc, type) ((type) == 0 ? ((isenc) ? WV_TAG_AesECB_Enc : WV_TAG_AesECB_Dec) : (type) == 1 ? ((isenc) ? WV_TAG_AesCBC_Enc : WV_TAG_AesCBC_Dec) : \
+  (type) == 2 ? WV_TAG_AesCTR : (type) == 3 ? ((isenc) ? WV_TAG_AesCFB_Enc : WV_TAG_AesCFB_Dec) : WV_TAG_AesOFB)
 #endif
